@@ -151,10 +151,10 @@ def run(args: argparse.Namespace) -> None:
     if isinstance(traj_ref, PoseTrajectory3D) and isinstance(
             traj_est, PoseTrajectory3D):
         logger.debug(SEP)
-        if args.t_start or args.t_end:
-            if args.t_start:
+        if args.t_start is not None or args.t_end is not None:
+            if args.t_start is not None:
                 logger.info("Using time range start: {}s".format(args.t_start))
-            if args.t_end:
+            if args.t_end is not None:
                 logger.info("Using time range end: {}s".format(args.t_end))
             traj_ref.reduce_to_time_range(args.t_start, args.t_end)
         logger.debug("Synchronizing trajectories...")
